@@ -238,7 +238,10 @@ func c11Run(env *core.Env, idx int) core.CaseResult {
 	rng := core.Rng(env.Seed, "C11", idx)
 	// relative spellings are taken against a real working directory
 	if env.Workdir != "" {
-		_ = os.Chdir(env.Workdir)
+		// the working directory changes from case to case: a relative spelling is taken against the current one
+		d := fmt.Sprintf("%s/cwd%d", env.Workdir, idx%3)
+		_ = os.MkdirAll(d, 0o755)
+		_ = os.Chdir(d)
 	}
 	cwd, err := os.Getwd()
 	if err != nil {
